@@ -50,6 +50,11 @@ CLAIMS['C01'] = ('proof',
     'Kernel contracts only: the scalar semantics every query of the subset is built from (three-valued AND/OR, NULL propagation, exact integer +,-,*, comparisons) and LIMIT/OFFSET slicing are proved on the real code '
     'against the SQL definitions written as independent spec predicates. Planner, joins, grouping, set operations and subqueries are not under contract.',
     _B_NOTE, 'contract-based deductive verification: Kani/CBMC on operator kernels + Verus on apply_limit_offset', 'DESIGN.md 5/C01')
+CLAIMS['C10'] = ('proof',
+    'Narrow: the one place where constraint checking is short-circuited - the append-mode tracker that lets the PRIMARY KEY check skip its duplicate lookup - is put under contract against a ghost set of the '
+    'table\'s keys (Verus, unbounded): on monotone insert histories the invariant "active => no stored key exceeds last_pk" is preserved and the skip is sound for keys above last_pk; the unrestricted clauses fail and are '
+    'a recorded, CLI-reproduced finding (duplicate key via INSERT ... SELECT). UNIQUE/NOT NULL/CHECK enforcement, UPDATE validation, REPLACE and ALTER are not under contract.',
+    _B_NOTE, 'contract-based deductive verification: Verus on mechanically extracted functions with a ghost key set', 'DESIGN.md 5/C10')
 NOT_APPLICABLE = {
     'C04': 'concurrency/rayon scheduling: Kani has no threads, Verus needs permission-typed code; the determinism-relevant comparator laws are claimed under C21/C08',
     'C05': 'every anchor is an AST-to-plan transformation or a join operator over Database/evaluator state: AST walks do not finish in CBMC and the code is outside the Verus subset',
